@@ -142,6 +142,8 @@ fn prepare<T: Sc>(c: &Case, seed: u64) -> Prepared<T> {
 fn solver_for<T: Sc>(c: &Case) -> LevenbergMarquardt<T> {
     match c.solver {
         1 => LevenbergMarquardt::new().with_xtol(T::f(1e30)),
+        // tolerances below the resolution of the scalar type: the optimizer ends with NoImprovementPossible (a failed fit)
+        3 => LevenbergMarquardt::new().with_ftol(T::f(0.0)).with_xtol(T::f(0.0)).with_gtol(T::f(0.0)),
         _ => LevenbergMarquardt::new(),
     }
 }
@@ -188,12 +190,12 @@ fn run_case<T: Sc>(ctx: &Ctx, c: &Case, prop: &str, tt: &TTable, seed: u64) {
     let underdetermined = n <= m + p;
     let stats = match stats {
         None => {
-            if underdetermined && fit.was_successful {
+            if underdetermined && fit.report_successful {
                 ctx.with(|s| {
                     s.inc("underdetermined_rejected_after_successful_fit");
                     s.inc("distinct_nontrivial")
                 });
-            } else if fit.was_successful {
+            } else if fit.report_successful {
                 ctx.with(|s| s.inc("err_although_fit_successful"));
             }
             // Err must carry the fit result: Ok flag false
@@ -209,7 +211,7 @@ fn run_case<T: Sc>(ctx: &Ctx, c: &Case, prop: &str, tt: &TTable, seed: u64) {
         ctx.with(|s| s.violate("C12", "ok-although-underdetermined", cj(), format!("fit_with_statistics returned Ok with N={} <= M+P={}", n, m + p)));
         return;
     }
-    if !fit.was_successful {
+    if !fit.report_successful {
         ctx.with(|s| s.violate("C12", "ok-although-fit-failed", cj(), format!("fit_with_statistics returned Ok although termination was {}", fit.termination)));
         return;
     }
@@ -586,7 +588,7 @@ fn shapes_cases(thorough: bool) -> Vec<Case> {
                 for &f32_ in scal {
                     for prov in [Prov::Hand, Prov::Built] {
                         for w in [WKind::None, WKind::Ramp] {
-                            for solver in [0u8, 1, 2] {
+                            for solver in [0u8, 1, 2, 3] {
                                 if !thorough && prov == Prov::Built && solver == 1 {
                                     continue;
                                 }
@@ -612,7 +614,7 @@ fn shapes_cases(thorough: bool) -> Vec<Case> {
         let (m, p) = (fam.m(), fam.p());
         for n in m..=(m + p + 3) {
             for &f32_ in scal {
-                for solver in [0u8, 1, 2] {
+                for solver in [0u8, 1, 2, 3] {
                     for par in [false, true] {
                         v.push(Case { fam: fam.clone(), n, prov: if par { Prov::Hand } else { Prov::Built }, par, w: WKind::InvSigma, noise_variant: 2, level: 1e-3, amp: 1.0, solver, f32_, eps: 0.0 });
                     }
@@ -697,6 +699,11 @@ fn band_cases(thorough: bool) -> Vec<Case> {
                             continue;
                         }
                         v.push(Case { fam: fam.clone(), n: fam.m() + fam.p() + nu, prov, par: false, w, noise_variant: 1, level: 1e-3, amp: 1.0, solver: 0, f32_, eps: 0.0 });
+                        if nu % 7 == 2 && prov == Prov::Hand {
+                            for amp in [1e-6, 1e6] {
+                                v.push(Case { fam: fam.clone(), n: fam.m() + fam.p() + nu, prov, par: false, w, noise_variant: 1, level: 1e-3, amp, solver: 0, f32_, eps: 0.0 });
+                            }
+                        }
                     }
                 }
             }
